@@ -225,3 +225,67 @@ def twin_never_succeeds(e0: bool, m00: bool, m01: bool) -> bool:
         except (SystemExit, OSError):
             return True
     return False
+
+
+# ---------------------------------------------------------------------------------------------------------------------
+# C13 (b), (c): what diff() shows is what rewrite_files writes
+
+def dry_shows_what_is_written(m00: bool, m01: bool, m10: bool, m11: bool, order: int) -> bool:
+    """file by file, the RewrittenFileData handed to rewrite.diff_lines by diff() has the path of the file, the old lines as
+    they are on disk and exactly the new lines that rewrite_files joins and writes; diff() writes nothing
+    pre: OLO <= order <= OHI
+    post: _
+    """
+    exists = [True, True, True, True]
+    matches = [[m00, m01], [m10, m11], [True, True], [True, True]]
+    fs, cfg = _mk(exists, matches, order, False)
+    before = fs.snapshot()
+    if LEGACY:
+        old_vinfo, new_vinfo, mod = v1version.parse_version_info(OLD, VP), v1version.parse_version_info(NEW, VP), v1rewrite
+    else:
+        old_vinfo, new_vinfo, mod = v2version.parse_version_info(OLD, VP), v2version.parse_version_info(NEW, VP), v2rewrite
+    shown = []
+    real_diff_lines = rewrite.diff_lines
+
+    def diff_lines(rfd):
+        shown.append(rfd)
+        return real_diff_lines(rfd)
+
+    saved = rewrite.diff_lines
+    rewrite.diff_lines = diff_lines
+    dry_failed = real_failed = False
+    text = ""
+    with _Seams(fs, []):
+        try:
+            try:
+                text = mod.diff(old_vinfo, new_vinfo, cfg.file_patterns)
+            except (OSError, rewrite.NoPatternMatch):
+                dry_failed = True
+        finally:
+            rewrite.diff_lines = saved
+        if fs.files != before or fs.writes:
+            return False
+        try:
+            mod.rewrite_files(cfg.file_patterns, new_vinfo)
+        except (OSError, rewrite.NoPatternMatch):
+            real_failed = True
+    if dry_failed != real_failed:
+        return False
+    if dry_failed:
+        return fs.files == before
+    if len(shown) != NFILES:
+        return False
+    for rfd in shown:
+        if rfd.path not in before:
+            return False
+        if rfd.line_sep.join(rfd.old_lines) != before[rfd.path]:
+            return False
+        if rfd.line_sep.join(rfd.new_lines) != fs.files[rfd.path]:
+            return False
+        # the printed text names the file and carries every changed line
+        if ("--- " + rfd.path) not in text or ("+++ " + rfd.path) not in text:
+            return False
+        for old_line, new_line in zip(rfd.old_lines, rfd.new_lines):
+            if old_line != new_line and (("-" + old_line) not in text or ("+" + new_line) not in text):
+                return False
+    return True
